@@ -51,6 +51,15 @@ def generate(seed, tier="quick"):
         ops.append({"id": oid, "op": "helper_batch_tasks", "n_tasks": nt, "n_batches": nbm, "start_idx": rnd.choice([0, 0, 1, 2, 5, rnd.randint(0, 50)]), "with_arr": rnd.random() < 0.5,
                     "args": rnd.choice([None, ["x"], ["x", 3]]), "role": "direct"})
         oid += 1
+    # history: the same (n_tasks, n_batches) asked again with another start index, then from 0 again
+    direct = [o for o in ops if o["op"] == "helper_batch_tasks"]
+    for o in rnd.sample(direct, min(len(direct), rnd.randint(1, 3))):
+        for st in (rnd.randint(1, 40), 0):
+            o2 = dict(o)
+            o2["id"] = oid
+            o2["start_idx"] = st
+            ops.append(o2)
+            oid += 1
     return {"format": 1, "property": PROPERTY, "seed": seed, "config": cfg, "ops": ops, "schedule": None, "faults": []}
 
 
